@@ -183,7 +183,11 @@ impl Pool {
                             // worker died (abort, stack overflow, killed)
                             if let Some(b) = self.workers[idx].busy.take() {
                                 outstanding -= 1;
-                                let status = self.workers[idx].child.wait().map(|s| format!("{:?}", s)).unwrap_or_default();
+                                let status = self.workers[idx]
+                                    .child
+                                    .wait()
+                                    .map(|s| if s.code() == Some(3) { "HARNESS: worker gave up (resource exhaustion)".to_string() } else { format!("{:?}", s) })
+                                    .unwrap_or_default();
                                 self.respawn(idx);
                                 on_result(b.job, JobResult::Died { detail: status });
                             } else {
